@@ -69,6 +69,37 @@ def pointer_programs(rng, n):
     return out
 
 
+def wide_programs():
+    """a FIXED enumeration: every 16-bit operation form on a split-port variable (signed and unsigned): shifts by
+    1..7, += / -= constants with and without carry, ++/--, copies, comparisons feeding a store"""
+    from lib.gen_c import Prog
+    out = {}
+    V = lambda x: ('var', x)
+    N = lambda x: ('num', x)
+    k = 0
+    for ty in ('short', 'unsigned short'):
+        stmts = []
+        for n in range(1, 8):
+            stmts.append(('expr', ('asg', '>>=', V('s'), N(n))))
+            stmts.append(('expr', ('asg', '<<=', V('s'), N(n))))
+        for c in (1, 255, 256, 300, 0x7fff):
+            stmts.append(('expr', ('asg', '+=', V('s'), N(c))))
+            stmts.append(('expr', ('asg', '-=', V('s'), N(c))))
+        stmts += [('expr', ('inc', 'x++', V('s'))), ('expr', ('inc', 'x--', V('s'))), ('expr', ('asg', '=', V('s'), V('t'))),
+                  ('expr', ('asg', '=', V('s'), ('bin', '+', V('t'), V('s')))), ('expr', ('asg', '=', V('s'), ('bin', '-', V('s'), V('t')))),
+                  ('expr', ('asg', '=', V('a'), ('bin', '>>', V('s'), N(8)))), ('expr', ('asg', '=', V('s'), V('a'))),
+                  ('if', ('bin', '<', V('s'), V('t')), ('block', [('expr', ('asg', '=', V('a'), N(1)))]), ('block', [('expr', ('asg', '=', V('a'), N(2)))]))]
+        for st in stmts:
+            for tq in ('superchip', ''):
+                p = Prog()
+                p.globals = [(ty, 's', None, None, 'superchip'), (ty, 't', None, None, tq), ('unsigned char', 'a', None, None, '')]
+                p.funcs = []
+                p.main = [st]
+                out['w%d' % k] = p
+                k += 1
+    return out
+
+
 def twin_results(progs, O, nstates, rng):
     """-> {pid: (verdict, detail, meta)}; verdict in agree | FAULT | DIFF | rejected"""
     srcs = {k: {'sc': p.source(), 'plain': strip_superchip(p).source()} for k, p in progs.items()}
@@ -179,6 +210,7 @@ def run(ctx):
                  for i in range(n_prog)}
         progs = {k: p for k, p in progs.items() if any(q for (_, _, _, _, q) in p.globals)}
         progs.update(pointer_programs(rng, 60 if quick else 1500))
+        progs.update(wide_programs())
         res = twin_results(progs, O, 8 if quick else 24, rng)
         for pid, (v, d, src) in res.items():
             stats[v] = stats.get(v, 0) + 1
